@@ -79,3 +79,24 @@ CHECKS["C18"] = {
   "text": "Every molecule in the bound is written as MOL and SDF in V2000/V3000/auto, the text checked by an independent strict reader (fixed columns, M  CHG entries, V3000 blocks, SD framing) and read back by biotite; values that do not fit V2000 columns must select V3000 or raise; header/metadata/record names must survive; stacks go through to_mol/from_mol as conformers. ~491 k cases quick, ~3.0 M thorough.",
   "note": "Trusts mc/models/ctfile.py (written from the CTfile specification) and RDKit's own reader as a second opinion where it is reliable; stripping of metadata value lines is counted as an unspecified normalisation.",
 }
+CHECKS["C04"] = {
+  "engine": "E2-input-enumerator",
+  "technique": "complete enumeration of small structures (28 layouts x all single/pair deviations from an 85-123 value ladder), all typed bond graphs on residue templates, hand-written atom_site tables for every altloc/model/author-label policy, against field-by-field comparison and a per-residue recomputation; three encodings compared differentially",
+  "ref": "DESIGN.md section 4 C04; notes/C04.md",
+  "text": "Every structure in the bound is written as CIF, BinaryCIF and compressed BinaryCIF, read back and compared field by field (annotations, float32 coordinates of every model, box, optional fields, typed bonds); every written struct_conn/chem_comp_bond row is additionally inspected as a statement about the input; hand-written tables with every assignment of alt ids and occupancies are read under every altloc policy / model / author-label choice and compared with a per-residue recomputation. ~160 k cases quick, ~421 k thorough.",
+  "note": "Trusts the comparison model in props/c04.py and the synthetic component dictionary (mc/ccd.py); losses the file format cannot express (aromaticity / ANY order of inter-residue bonds, intra-residue COORDINATION, per-component chem_comp_bond, implicit polymer links) are recorded known findings.",
+}
+CHECKS["C05"] = {
+  "engine": "E2-input-enumerator",
+  "technique": "complete enumeration of boundary-value arrays per dtype x all encoding chains of 1-3/4 stages (with explicit and auto parameters), compress() at three tolerances, columns with every mask, against an exact reference model in Python ints/Fractions (ACCEPT / REFUSE-or-exact / EITHER per stage)",
+  "ref": "DESIGN.md section 4 C05; notes/C05.md",
+  "text": "Every (array, chain) pair in the bound is executed stage by stage and through BinaryCIFData.serialize -> msgpack -> deserialize; the reference model decides per stage whether the target representation can hold the values: then the round trip must be exact (floats within half a fixed-point step / the relative tolerance), otherwise a clean exception or a lossless result. ~1.0 M cases quick, ~9.8 M thorough.",
+  "note": "Trusts mc/models/bcif_codec.py; the full product of palettes x chains is trimmed as listed in notes/C05.md (full palette x single stages, core palettes for multi-stage chains).",
+}
+CHECKS["C10"] = {
+  "engine": "E2-input-enumerator",
+  "technique": "complete enumeration of (reference set, query, masks, spacing model, bucket count, constructor) combinations over alphabets 2-4/5 and k 2-3/4, all similarity thresholds of 3 matrices, all selector parameterisations on all sequences up to length 11/12, against nested-loop triple sets and the selectors' definitions; direct vs bucket vs unpickled vs merged tables compared differentially",
+  "ref": "DESIGN.md section 4 C10; notes/C10.md",
+  "text": "Every table in the bound is built through every constructor (sequences, k-mers, selections, positions, merged tables, pickle, deepcopy), its content checked through every lookup view, and match / match_table / match_kmer_selection compared with the naive triple set (masks applied per informative position, spaced models included); minimizer / syncmer / mincode selectors compared with their definitions. ~9.6 M cases quick, ~48 M thorough; malformed calls run in forked children.",
+  "note": "Trusts the nested-loop model in props/c10.py; positions / reference ids outside uint32 and from_tables with mixed table classes are recorded known findings (repairs need new control flow in compiled code).",
+}
